@@ -539,7 +539,7 @@ def _abstract_shared(x, y, k):
 
 
 def sweep(roots, assume, sampler, nsamp=24, timeout_ms=3000, rounds=4, verbose=False, hints=(), budget_s=None,
-          ladder=(0, 1, 2, 3, 4, 6), max_depth=None, protect=()):
+          ladder=(0, 1, 2, 3, 4, 6), max_depth=None, protect=(), scales=()):
     """Merge solver-proved equal (or opposite) internal nodes bottom-up and resolve conditions
     that are provably constant under the assumptions.  Random simulation only *proposes*
     candidates; each merge is justified by an `unsat` answer.  Returns (new_roots, log)."""
@@ -599,6 +599,40 @@ def sweep(roots, assume, sampler, nsamp=24, timeout_ms=3000, rounds=4, verbose=F
                 rep, sg0 = lst[0]
                 for t, sg in lst[1:]:
                     cands.append((t.depth, t.id, t, rep, sg * sg0))
+        if scales:
+            # proportional nodes: t = m * r with m a monomial in the given scale terms (units clauses)
+            import itertools
+            svals = [[envs[k][sc.id] for k in range(ns)] for sc in scales]
+            monos = []
+            for ex in itertools.product(range(-2, 4), repeat=len(scales)):
+                if all(e == 0 for e in ex):
+                    continue
+                vals = [1.0] * ns
+                for sv, e in zip(svals, ex):
+                    vals = [v * (x ** e) for v, x in zip(vals, sv)]
+                monos.append((ex, vals))
+            single = {k: min(lst, key=lambda p: (p[0].depth, p[0].id)) for k, lst in classes.items()}
+            for k, lst in list(classes.items()):
+                if len(lst) != 1 or all(x == 0 for x in k):
+                    continue
+                t = lst[0][0]
+                if t.op in ('var', 'const') or t.depth < 2:
+                    continue
+                vs = [envs[j][t.id] for j in range(ns)]
+                for ex, mv in monos:
+                    try:
+                        kk = tuple(float('%.8e' % (v / m)) for v, m in zip(vs, mv))
+                    except ZeroDivisionError:
+                        continue
+                    hit = single.get(kk)
+                    if hit is not None and hit[0] is not t and (hit[0].depth, hit[0].id) < (t.depth, t.id):
+                        mt = tm.ONE
+                        for sc, e in zip(scales, ex):
+                            for _ in range(abs(e)):
+                                mt = tm.mul(mt, sc) if e > 0 else tm.div(mt, sc)
+                        cands.append((t.depth, t.id, t, tm.mul(mt, hit[0]), hit[1]))
+                        break
+        cands.sort(key=lambda c: (c[0], c[1]))
         cands.sort(key=lambda c: (c[0], c[1]))
         if max_depth is not None:
             cands = [c for c in cands if c[0] <= max_depth]
